@@ -12,6 +12,9 @@ import RioModel.Model.FilterJson
 open Lean Rio.Filter
 
 def handle (j : Json) : Except String Json := do
+  -- CodecLaws cases are about flate2 / brotli themselves (the codecs are outside the model): nothing to compute
+  if (Drv.optBool? j "laws") matches .ok (some true) then
+    return Json.mkObj [("m", Json.mkObj [("laws", toJson "ok")])]
   let body ← J.unhex (← J.str? j "body")
   let fs ← J.filters? j
   let cenc ← J.optStr? j "cenc"
